@@ -36,7 +36,7 @@ ASSUMPTIONS = [
 ]
 MANIFEST = {
     "category": "model_checking",
-    "text": "Explicit-state breadth-first model checking of the member/alias mutation API on the real objects: all operation histories up to the depth bound (quick 5, thorough 8, or to the fixpoint of reachable canonical states when it is reached earlier) over a universe of 2 modules, a class, functions, an attribute and 7 aliases (chain, dangling, self, 2-cycle), with a dict reference model stepped in lock-step and invariants I1-I7 checked in every state.",
+    "text": "Explicit-state breadth-first model checking of the member/alias mutation API on the real objects: all operation histories up to the depth bound (quick 4, thorough 7, or to the fixpoint of reachable canonical states when it is reached earlier) over a universe of 2 modules, a class, functions, an attribute and 7 aliases (chain, dangling, self, 2-cycle), with a dict reference model stepped in lock-step and invariants I1-I7 checked in every state.",
     "note": "Bounded by the universe and depth stated in the evidence; objects are always fresh; the reference model and canonical form are hand-written (their soundness argument is in DESIGN.md C16).",
     "technique": "explicit-state BFS model checking over API operation histories on the real implementation with a lock-step reference model",
 }
@@ -48,13 +48,14 @@ KEYFORMS = ("name", "dotted", "tuple")
 ALIAS_TARGETS = {
     "m.al": "m.f", "m.a2": "m.C", "n.a3": "m.al", "n.bad": "m.zzz", "m.self": "m.self", "m.cy": "n.cy", "n.cy": "m.cy",
     "m.f": "m.v",  # an alias can also displace the function at m.f (replacement of an object by an alias)
+    "n.a4": "m.f",  # a second alias to the same object (every alias of a replaced object must follow, not just the first)
 }
 # (slot path, value kind)
 SET_VALUES = [
     ("m", "module"), ("m", "stubmodule"), ("n", "module"),
     ("m.C", "class"), ("m.C.f", "function"), ("m.f", "function"), ("m.f", "attribute"), ("m.v", "attribute"),
 ] + [(p, "alias") for p in ALIAS_TARGETS]
-DEL_PATHS = ["m", "n", "m.C", "m.C.f", "m.f", "m.v", "m.g", "m.al", "m.a2", "n.a3", "n.bad", "m.cy"]
+DEL_PATHS = ["m", "n", "m.C", "m.C.f", "m.f", "m.v", "m.g", "m.al", "m.a2", "n.a3", "n.bad", "m.cy"]  # (n.a4 is never deleted: keeps the alphabet small)
 ALIAS_PATHS = [p for p in ALIAS_TARGETS if p != "m.f"] + ["m.f"]
 RETARGETS = [("m.al", "m.C"), ("m.a2", "m.f"), ("n.a3", "m.f"), ("n.bad", "m.v"), ("m.al", "m.a2")]
 ALL_PATHS = sorted({p for p, _ in SET_VALUES} | {"m.g", "m.C.g", "m.zzz"})
@@ -113,7 +114,15 @@ def _root_histories(tier):
         idx("set", "m.f", "function", "set_member", "name"),
         idx("set", "m.v", "attribute", "set_member", "name"),
     )
-    return [(), populated]
+    # a third root: two resolved aliases to the same function and no m.v (so that an alias m.f -> "m.v" cannot be resolved):
+    # replacing m.f there makes the re-targeting of the first alias fail, which must not stop the others from following
+    two_aliases = tuple(i for i in populated if ops[i][1] != "m.v") + (
+        idx("set", "m.al", "alias", "set_member", "name"),
+        idx("set", "n.a4", "alias", "set_member", "name"),
+        idx("touch", "m.al"),
+        idx("touch", "n.a4"),
+    )
+    return [(), populated, two_aliases]
 
 
 def root_len(hist, tier):
@@ -754,7 +763,7 @@ def bounds(tier):
             "max_depth": DEPTH[tier], "universe_paths": ALL_PATHS}
 
 
-DEPTH = {"quick": 5, "thorough": 8}
+DEPTH = {"quick": 4, "thorough": 7}
 
 
 def run_all(tier, jobs):
